@@ -75,4 +75,27 @@ META = {
         "technique": "Coq proof (list induction + lra over Q; Reals.exp for the acceptance identity) + raw-tape replay and threshold bisection",
         "design_ref": "DESIGN.md §3 C19",
     },
+    "C09": {
+        "text": "Coq theorems for every operator string, labelling and flip outcome: the cluster flip leaves the skeleton (number, positions, bonds, variables, constant flags) unchanged; re-decomposing the result "
+                "yields the identical decomposition (it is a function of the skeleton); a cluster containing a zero-ratio (symmetry-breaking) operator has weight 0 and a zero-probability cluster is flipped with probability 0. "
+                "The model transcribes the exploration order of cluster.rs, so that one raw RNG word maps to the same cluster in model and code; it is replayed bit-exactly on synthetic random strings and on equilibrium strings.",
+        "note": "Trusted: Coq kernel + vm_compute; Model/Cluster.v. Partial: preservation of the weight product and of world-line consistency by the flip is checked by an independent oracle on every case and by exact agreement with the model, not proved.",
+        "technique": "Coq proof (fold invariants, exact mass of the draw program) + raw-tape replay of the real cluster update incl. cluster numbering",
+        "design_ref": "DESIGN.md §3 C09",
+    },
+    "C06": {
+        "text": "Coq theorems, for all Hamiltonian tables, cutoffs, strings and outcomes: both diagonal-update variants satisfy a structural slot specification, and any update satisfying it maps a consistent periodic "
+                "configuration to a consistent periodic one with the same p=0 state; the free-spin refresh, cutoff padding and replica swaps preserve consistency; the imaginary-time fold visits exactly the propagated states, one per slot. "
+                "Every public call (timestep, single_diagonal_step, single_cluster_step, generic timestep with loops/clusters, tempering steps in C10) is replayed by the model on the raw RNG words, and an independent world-line checker runs after every call.",
+        "note": "Trusted: Coq kernel + vm_compute; model transcriptions. Partial: consistency after the cluster flip, the directed loop and RVB is established by checker + exact model agreement only.",
+        "technique": "Coq proof (support induction over the sweep program) + whole-call raw-tape replay + independent checker after every call",
+        "design_ref": "DESIGN.md §3 C06",
+    },
+    "C07": {
+        "text": "Coq theorems: a diagonal sweep stores only structurally legal terms (valid bond, that bond's variables in order, constant flag, arities) given a legal string; zero-weight operators are inserted with probability exactly 0 in both variants; "
+                "spin-flip-only updates keep every bond at its position. The legality of every stored operator (incl. strictly positive matrix element) is checked against the configured Hamiltonian after every public call of both samplers.",
+        "note": "Trusted: Coq kernel + vm_compute; model transcriptions. Partial: positivity after cluster/loop/RVB updates rests on the oracle and the exact model correspondence.",
+        "technique": "Coq proof (support induction, exact masses) + whole-call raw-tape replay + legality oracle after every call",
+        "design_ref": "DESIGN.md §3 C07",
+    },
 }
